@@ -381,7 +381,7 @@ def replay(rec):
 LEVEL_TEXT = ("contract-based, partial: total classification of _read_pdu_data for every byte stream and every socket behaviour; loop "
               "variants of all four item-splitting generators on arbitrary bytes (the decoder cannot hang); a PDU reaches the state "
               "machine only if it converts to a primitive, conversions are frame-checked pure, and an undecodable DIMSE payload becomes "
-              "Evt19; stability decode(encode(decode(b))) proved for the fixed-layout PDUs only.")
+              "Evt19; stability decode(encode(decode(b))) proved for the fixed-layout PDUs only. utils.decode_bytes: total, ASCII text or ValueError, recursion depth <= 2.")
 LEVEL_NOTE = "level 'other': stability for A-ASSOCIATE-RQ/AC/P-DATA values decoded from arbitrary bytes is not proved (see not_decided)."
 TECHNIQUE = ("deductive: effect-trace contracts on _read_pdu_data/_decode_pdu/receive_primitive, loop variants on the item generators over "
              "symbolic byte sequences (AST->VC, z3 Seq/LIA), exhaustive AST frame scan of the conversion methods")
